@@ -1,7 +1,153 @@
-(* Properties/C44.v -- placeholder while the correspondence is being set up *)
+(* Properties/C44.v -- fast-export followed by fast-import preserves history.
+
+   FULL STATEMENT (properties.jsonl): for every history h, import (export h) is isomorphic to h
+   (same number of revisions, same parent structure, equal trees, messages, committers/authors,
+   timestamps and time zones, tags), in particular
+     C44_filecmds_sound:  the file commands emitted between the first parent and a revision,
+                          applied with the importer's semantics to the imported parent, yield the
+                          revision's tree.
+   Both are FALSE of the faithful model and of the code.  This file holds
+     * the refutations (witnesses replayed on the real exporter+importer by harness/props/c44.py corpus()),
+     * what does hold for all inputs: the exporter's half of soundness (_partial), the history
+       shape and metadata (_partial / _guarded with executable guards).
+   Not proved: that the file commands reproduce the tree under the guard
+   harness/props/_c44_mirror.py:tree_guard_reason -- that half rests on the correspondence runs. *)
 From Coq Require Import ZArith NArith List Bool String.
-From BV Require Import Lib.Bytes Lib.Obs Model.FastIO Model.FastHist.
+From BV Require Import Lib.Bytes Lib.Obs Model.FastIO Model.FastHist Theory.FastIO Theory.FastHist.
 Import ListNotations.
 
-Theorem C44_placeholder : True. Proof. exact I. Qed.
-Print Assumptions C44_placeholder.
+(* ---- C44_filecmds_sound ---------------------------------------------------------------- *)
+
+(* swap, rename onto a vacated path (both orders), directory rename with a modified child, symlink
+   replaced by a directory with two files, directory replaced by a file while its child moves out,
+   symlink turned into an empty directory: in each case both trees are well formed, the old tree is
+   imported exactly, and the emitted commands do NOT produce the new tree on it *)
+Theorem C44_filecmds_sound_refuted :
+  refutes true wit_swap /\ refutes true wit_clobber /\ refutes true wit_chain /\
+  refutes true wit_dirrename /\ refutes true wit_link_to_dir2 /\ refutes true wit_dir_to_file /\
+  refutes true wit_link_to_emptydir.
+Proof.
+  exact (conj swap_refutes (conj clobber_refutes (conj chain_refutes (conj dirrename_refutes
+        (conj link_to_dir2_refutes (conj dir_to_file_refutes link_to_emptydir_refutes)))))).
+Qed.
+Print Assumptions C44_filecmds_sound_refuted.
+
+(* the exporter's half, for all trees, both stream formats and every order of the M commands: every file
+   or symlink of the new tree that is new, or whose kind, content, target or executable bit changed, gets
+   an M command with its new mode and content at its NEW path (except the case the code skips: a renamed
+   entry whose old path was an empty directory).  Missing for full soundness: the importer's application
+   and the interplay with the R/D commands (see _refuted). *)
+Theorem C44_filecmds_sound_partial :
+  forall (plain : bool) (old new : inv) (mpaths : list path) (e : entry),
+    nodup_N (map e_id new) = true ->
+    In e new ->
+    kind_eqb (e_kind e) KDir = false ->
+    needs_M old e = true ->
+    (forall o, find_entry old (e_id e) = Some o -> renamed_b o e = true ->
+               is_empty_dir old (opath old (e_id o)) = false) ->
+    In (CM (opath new (e_id e)) (mode_of e) (e_data e)) (snd (filecmds plain old new mpaths)).
+Proof. exact filecmds_emit_changed_content. Qed.
+Print Assumptions C44_filecmds_sound_partial.
+
+Theorem C44_empty_directory_refuted :
+  wf_inv (fst wit_emptydir) = true /\
+  exists b fr, image true (fst wit_emptydir) = Ok (b, fr) /\ tree_of b <> tree_of (fst wit_emptydir).
+Proof. exact empty_directory_lost. Qed.
+Print Assumptions C44_empty_directory_refuted.
+
+(* ---- C44_import_export_iso ------------------------------------------------------------- *)
+
+(* for every stream the importer accepts: as many revisions as commit commands, in mark order, each with
+   the committer, authors, timestamp, time zone and message of its command *)
+Theorem C44_import_export_iso_partial :
+  forall (xs : list xcommit) (tags : list (bytes * nat)) (s : ist),
+    import_stream false xs tags = Ok s ->
+    map fst (i_revs s) = map x_mark xs /\ Forall2 meta_rel xs (map snd (i_revs s)).
+Proof. exact import_preserves_count_and_meta. Qed.
+Print Assumptions C44_import_export_iso_partial.
+
+(* parent structure: a commit with at least one parent, all of them exported before it, is imported
+   with exactly the marks of its parents, left-hand parent first, merge parents in order *)
+Theorem C44_parents_preserved_guarded :
+  forall plain h order r sr s s' ms,
+    Forall2 (fun p k => mark_of order p = Some k) (s_parents sr) ms ->
+    ms <> [] ->
+    import_one false s (export_commit plain h order r sr) = Ok s' ->
+    exists d, i_revs s' = i_revs s ++ [(x_mark (export_commit plain h order r sr), d)] /\ d_parents d = ms.
+Proof. exact commit_parents_preserved. Qed.
+Print Assumptions C44_parents_preserved_guarded.
+
+(* ... but a parentless commit that is not the first one is given the previous commit as parent *)
+Theorem C44_multiple_roots_refuted :
+  (forall plain h order r sr s s' l,
+      s_parents sr = [] ->
+      aget bytes_eqb (last_ids (i_rt s)) MASTER = Some l ->
+      import_one false s (export_commit plain h order r sr) = Ok s' ->
+      exists d, i_revs s' = i_revs s ++ [(x_mark (export_commit plain h order r sr), d)] /\ d_parents d = [l])
+  /\ (exists l, imported h_two_roots 2 = Ok l /\
+                ~ (exists t1 t2 t3, l = [([], t1); ([], t2); ([1%nat; 2%nat], t3)] \/
+                                    l = [([], t1); ([], t2); ([2%nat; 1%nat], t3)])).
+Proof. exact (conj root_commit_reparented two_roots_not_preserved). Qed.
+Print Assumptions C44_multiple_roots_refuted.
+
+(* a rich stream whose revisions carry properties (every normally committed revision does) is rejected *)
+Theorem C44_rich_properties_refuted :
+  forall (x : xcommit) (xs : list xcommit) (tags : list (bytes * nat)),
+    import_stream true (x :: xs) tags = Fail "ValueError".
+Proof. exact rich_properties_rejected. Qed.
+Print Assumptions C44_rich_properties_refuted.
+
+(* ---- metadata -------------------------------------------------------------------------- *)
+
+Theorem C44_timestamp_guarded : forall ts4 : Z, (ts4 mod 4 = 0)%Z -> (4 * stream_secs ts4 = ts4)%Z.
+Proof. exact timestamp_roundtrip. Qed.
+Print Assumptions C44_timestamp_guarded.
+
+Theorem C44_timestamp_refuted : (4 * stream_secs 4003 <> 4003)%Z.
+Proof. exact timestamp_subsecond_lost. Qed.
+Print Assumptions C44_timestamp_refuted.
+
+Theorem C44_timezone_guarded : forall tz : Z, (tz mod 60 = 0)%Z -> stream_tz tz = tz.
+Proof. exact timezone_roundtrip. Qed.
+Print Assumptions C44_timezone_guarded.
+
+Theorem C44_timezone_refuted : stream_tz (-90) <> (-90)%Z.
+Proof. exact timezone_seconds_lost. Qed.
+Print Assumptions C44_timezone_refuted.
+
+Theorem C44_ident_guarded :
+  forall (u : ident) (parsed : nm_em),
+    ident_canonical u parsed = true -> format_name_email (name_email u parsed) = u.
+Proof. exact ident_roundtrip. Qed.
+Print Assumptions C44_ident_guarded.
+
+Theorem C44_ident_refuted :
+  format_name_email (name_email ([60] ++ JOE ++ [62])%list ([], JOE)) <> ([60] ++ JOE ++ [62])%list.
+Proof. exact ident_empty_name_changed. Qed.
+Print Assumptions C44_ident_refuted.
+
+(* ---- tags -------------------------------------------------------------------------------- *)
+
+Theorem C44_tags_guarded :
+  (forall plain rewrite order t r k,
+      check_ref_format (REFS_TAGS ++ t) = true ->
+      mark_of order r = Some k ->
+      export_tags plain rewrite false order [(t, Some r)] = [(REFS_TAGS ++ t, k)])
+  /\ (forall s t k, i_tags (import_tag s (REFS_TAGS ++ t, k)) = aset bytes_eqb (i_tags s) t k).
+Proof. exact (conj valid_tag_exported tag_reset_imported). Qed.
+Print Assumptions C44_tags_guarded.
+
+Theorem C44_tag_dropped_refuted :
+  forall order r, export_tags true false false order [(HID, Some r)] = [].
+Proof. exact invalid_tag_dropped. Qed.
+Print Assumptions C44_tag_dropped_refuted.
+
+Theorem C44_rewritten_tag_moves_tip_refuted :
+  prefixb REFS_TAGS (sanitize_ref (REFS_TAGS ++ HID)) = false /\
+  match import_stream false (export_commits true h_two 1)
+                      (export_tags true true false (export_order h_two 1) [(HID, Some 0%nat)]) with
+  | Ok s => final_tip s = Some 1%nat
+  | Fail _ => False
+  end.
+Proof. exact (conj rewritten_tag_leaves_refs_tags rewritten_tag_moves_tip). Qed.
+Print Assumptions C44_rewritten_tag_moves_tip_refuted.
